@@ -112,6 +112,69 @@ def read_until(sock, marker, timeout=60):
     return data
 
 
+class BioTLS:
+    """TLS client over ssl.MemoryBIO, so that the harness decides how the bytes of one TLS RECORD are cut
+    into TCP segments (an SSLSocket always writes a record in one go)."""
+
+    def __init__(self, ctx, sock, server_hostname):
+        self.sock = sock
+        self.inc, self.out = ssl.MemoryBIO(), ssl.MemoryBIO()
+        self.obj = ctx.wrap_bio(self.inc, self.out, server_hostname=server_hostname)
+        while True:
+            try:
+                self.obj.do_handshake()
+                self._flush()
+                break
+            except ssl.SSLWantReadError:
+                self._flush()
+                self._fill()
+
+    def _flush(self, split=False):
+        data = self.out.read()
+        if not data:
+            return
+        if split and len(data) > 8:
+            # cut inside the record: header + a few bytes first, the rest after the proxy has polled
+            for a, b in ((0, 7), (7, len(data) // 2), (len(data) // 2, len(data))):
+                self.sock.sendall(data[a:b])
+                time.sleep(0.15)
+        else:
+            self.sock.sendall(data)
+
+    def _fill(self):
+        d = self.sock.recv(65536)
+        if not d:
+            self.inc.write_eof()
+            raise EOFError('connection closed during TLS exchange')
+        self.inc.write(d)
+
+    def sendall(self, data, split=True):
+        self.obj.write(data)
+        self._flush(split)
+
+    def recv(self, n):
+        while True:
+            try:
+                return self.obj.read(n)
+            except ssl.SSLWantReadError:
+                try:
+                    self._fill()
+                except EOFError:
+                    return b''
+            except ssl.SSLZeroReturnError:
+                return b''
+
+    def getpeercert(self, binary=False):
+        return self.obj.getpeercert(binary)
+
+    def close(self):
+        try:
+            self.obj.unwrap()
+            self._flush()
+        except (ssl.SSLError, OSError):
+            pass
+
+
 def one_connection(pt, ex, origin, host_for_connect, verify_ca, expect_cert_name):
     """Returns an observation dict for one client connection through the proxy."""
     import h11
@@ -132,8 +195,11 @@ def one_connection(pt, ex, origin, host_for_connect, verify_ca, expect_cert_name
         ctx.verify_mode = ssl.CERT_REQUIRED
         a.settimeout(60)
         try:
-            t = ctx.wrap_socket(a, server_hostname=expect_cert_name)
-        except (ssl.SSLError, OSError) as e:
+            if pt['packing'] == 'split_record':
+                t = BioTLS(ctx, a, expect_cert_name)
+            else:
+                t = ctx.wrap_socket(a, server_hostname=expect_cert_name)
+        except (ssl.SSLError, OSError, EOFError) as e:
             obs['client_handshake'] = 'failed: %s: %s' % (type(e).__name__, str(e)[:120])
             obs['client_app_bytes'] = 0
             return obs
@@ -153,7 +219,7 @@ def one_connection(pt, ex, origin, host_for_connect, verify_ca, expect_cert_name
         bodies = []
         got = b''
         for rq in reqs:
-            if pt['packing'] == 'whole':
+            if pt['packing'] in ('whole', 'split_record'):
                 pieces = [rq]
             elif pt['packing'] == 'split_header':
                 i = rq.index(b'Host:') + 3
